@@ -22,9 +22,14 @@ pub fn strip_ansi_codes(s: &str) -> String {
 }
 
 pub fn measure_text_width(s: &str) -> usize {
-    ansi_strings_iterator(s).fold(0, |acc, (element, is_ansi)| {
-        acc + if is_ansi { 0 } else { element.width() }
-    })
+    // The text as a whole: the width of a grapheme cluster whose characters are separated by an
+    // escape sequence (a color change inside `☺` + variation selector) is not the sum of the
+    // widths of its parts.
+    if s.contains('\x1b') {
+        strip_ansi_codes(s).width()
+    } else {
+        s.width()
+    }
 }
 
 fn truncate_str_impl<'a>(
